@@ -29,7 +29,21 @@ pub fn pool() -> Vec<String> {
     for s in CASE_PARTNERS {
         v.push(s.to_string());
     }
+    // two names with ONE file name (`_aΣ_.glif`) whose capital sigma is word-final: `str::to_lowercase` gives the
+    // final sigma, a char-wise lower-casing does not (seeded change C09-r5-1)
+    for s in SIGMA_PAIR {
+        v.push(s.to_string());
+    }
     v
+}
+
+pub const SIGMA_PAIR: [&str; 2] = [".a\u{3a3}", "_a\u{3a3}"];
+
+/// the i-th of 225 different valid names that all map to the file name `x__` (seeded change C06-r5-2: the
+/// 101st must be refused with the documented panic, never given a file name that is taken)
+pub fn clash_name(i: usize) -> String {
+    const A: [char; 15] = [':', '?', '"', '(', ')', '[', ']', '*', '/', '\\', '+', '<', '>', '|', '_'];
+    format!("x{}{}", A[(i / 15) % 15], A[i % 15])
 }
 
 /// (x, y) adjacent: `x.to_lowercase() == y.to_lowercase()`, x != y, and no character of x is `is_uppercase`
@@ -526,6 +540,21 @@ pub fn gen(tier: &str, seed: u64, out: &mut dyn Write) {
             emit(out, &scratch, "new", &[format!("nl.{}", x), format!("nl.{}", y)]);
             emit(out, &scratch, "new", &[format!("nl.{}", x), format!("ig.1.{}", x), format!("ig.1.{}", y)]);
         }
+    }
+    // directed: the two word-final capital sigma names, both orders, glyphs and layers
+    for (x, y) in [(SIGMA_PAIR[0], SIGMA_PAIR[1]), (SIGMA_PAIR[1], SIGMA_PAIR[0])] {
+        let (x, y) = (hexs(x), hexs(y));
+        emit(out, &scratch, "new", &[format!("ig.0.{}", x), format!("ig.0.{}", y)]);
+        emit(out, &scratch, "new", &[format!("nl.{}", x), format!("nl.{}", y)]);
+        emit(out, &scratch, "new", &[format!("nl.{}", x), format!("ig.1.{}", x), format!("ig.1.{}", y), format!("rg.1.{}", x), format!("ig.1.{}", x)]);
+    }
+    // directed: 100, 101, 102 names mapping to one file name, glyphs and layers: the 101st is refused (documented
+    // panic), no two entries ever share a file name
+    for n in [100usize, 101, 102] {
+        let g: Vec<String> = (0..n).map(|i| format!("ig.0.{}", hexs(&clash_name(i)))).collect();
+        emit(out, &scratch, "new", &g);
+        let l: Vec<String> = (0..n).map(|i| format!("nl.{}", hexs(&clash_name(i)))).collect();
+        emit(out, &scratch, "new", &l);
     }
     rm_rf(&scratch);
 }
